@@ -619,10 +619,36 @@ def emit(c, fp):
     return h
 
 
+def gen_offset_kink(rnd):
+    """two elements with offsets of opposite sign, an arc whose offset laws end with a non-zero slope (the centre curves meet the next
+    section at an angle of a degree or two), then a smooth quadratic with a width change: the family in which the thorough tier (seed 31,
+    case R36810) found a joint where the search for the intersection of the side curves fails and leaves its last iterate behind
+    (repaired in gdstk: a failed search no longer trims; kept as a targeted workload)"""
+    def j(v):
+        return v * rnd.uniform(0.7, 1.3)
+    o = [j(-0.09), j(0.07)]
+    els = [{'width': 0.1, 'offset': o[0], 'tag': (0, 0), 'end': 3, 'ext': (0.08, 0.08)},
+           {'width': 0.08, 'offset': o[1], 'tag': (1, 0), 'end': 0, 'ext': (0.0, 0.0)}]
+    fp = {'p0': (0.12, 0.16), 'tol': 1e-4, 'max_evals': 1000, 'elements': els, 'simple': False, 'scale_width': True, 'calls': [],
+          'rep': None, 'props': [], 'xforms': [], 'offset_kink': True}
+    model = Model(fp)
+    r = j(0.84)
+    laws = [('p', [rnd.choice([0, 1]) if k == 0 else 1, o[k], -0.2 * o[k] * rnd.uniform(0.5, 1.5)]) for k in range(2)]
+    call = ('arc', (r, r, 0.0, math.pi / 2, 0.0), {'o': laws})
+    model.call(call)
+    fp['calls'].append(call)
+    call = ('quadratic_smooth', (j(-1.55), j(0.31)), {'rel': True, 'w': [('l', j(0.14)), ('l', j(0.112))]})
+    model.call(call)
+    fp['calls'].append(call)
+    return fp
+
+
 def make_case(i):
     sd = vfw.seed() * 1000003 + 80000 + i
     rnd = random.Random(sd)
     fp = gen_path(rnd, sd)
+    if random.Random(sd + 7).random() < 0.05:
+        fp = gen_offset_kink(random.Random(sd + 8))
     c = Case('R%d' % i, timeout=90)
     h = emit(c, fp)
     c.op('dump_el', h, 'path')
@@ -876,11 +902,20 @@ def judge(chk, c, evs):
         cum = [0.0]
         for s_ in step_len:
             cum.append(cum[-1] + s_)
-        for k1 in range(0, len(dense), 3):
-            for k2 in range(k1 + 3, len(dense), 3):
-                if cum[k2] - cum[k1] < 2.5 * clear:
+        # (chords over three sampling steps, segment-to-segment distance: two stretches that cross at a steep angle can have all their
+        # sample points farther apart than the clearance)
+        nd = len(dense)
+        chords = [(k, min(k + 3, nd - 1)) for k in range(0, nd - 1, 3)]
+        bbs = [(min(dense[a_][0], dense[b_][0]) - clear, min(dense[a_][1], dense[b_][1]) - clear, max(dense[a_][0], dense[b_][0]) + clear,
+                max(dense[a_][1], dense[b_][1]) + clear) for a_, b_ in chords]
+        for i1, (a1, b1) in enumerate(chords):
+            for i2 in range(i1 + 1, len(chords)):
+                a2, b2 = chords[i2]
+                if cum[a2] - cum[b1] < 2.5 * clear:
                     continue
-                if math.hypot(dense[k1][0] - dense[k2][0], dense[k1][1] - dense[k2][1]) < clear:
+                if bbs[i1][0] > bbs[i2][2] - clear or bbs[i2][0] > bbs[i1][2] - clear or bbs[i1][1] > bbs[i2][3] - clear or bbs[i2][1] > bbs[i1][3] - clear:
+                    continue
+                if genlib._seg_dist(dense[a1][:2], dense[b1][:2], dense[a2][:2], dense[b2][:2]) < clear:
                     approach = True
                     break
             if approach:
